@@ -56,7 +56,7 @@ PRESETS = ["spin1_boot_options", "spin2_boot_options", "spin3_boot_options",
 
 
 def plan(tier):
-    n = 150 if tier == "quick" else 4000
+    n = 1000 if tier == "quick" else 60000
     return [(c, n) for c in CLASSES]
 
 
